@@ -32,6 +32,8 @@ pub struct In {
     pub cl_setting: Option<bool>,
     /// hand the lazer flag to `Performance::lazer` instead of `Difficulty::lazer`
     pub lazer_via_setter: bool,
+    /// osu! only: provided large tick / small tick / slider end hits
+    pub ticks: [Option<u32>; 3],
     pub passed: Option<u32>,
 }
 
@@ -182,6 +184,11 @@ fn gen_in_raw(rng: &mut Rng, mode: GameMode, n: u32) -> In {
         cl: rng.chance(0.3),
         cl_setting: if mode == GameMode::Osu { *rng.pick(&[None, None, Some(true), Some(false)]) } else { None },
         lazer_via_setter: rng.chance(0.5),
+        ticks: if mode == GameMode::Osu && rng.chance(0.4) {
+            [opt(rng, 0.5), opt(rng, 0.5), opt(rng, 0.5)]
+        } else {
+            [None; 3]
+        },
         passed: if rng.chance(0.4) {
             Some(match rng.below(4) {
                 0 => 0,
@@ -257,6 +264,15 @@ pub fn build_on<'a>(start: Performance<'a>, mode: GameMode, i: &In) -> Performan
         if let Some(v) = v {
             p = set(p, idx, *v);
         }
+    }
+    if let Some(v) = i.ticks[0] {
+        p = p.large_tick_hits(v);
+    }
+    if let Some(v) = i.ticks[1] {
+        p = p.small_tick_hits(v);
+    }
+    if let Some(v) = i.ticks[2] {
+        p = p.slider_end_hits(v);
     }
     p
 }
@@ -396,6 +412,29 @@ pub fn check_state(attrs: &DifficultyAttributes, mode: GameMode, i: &In, out: &S
                                 "S3-kept".into(),
                                 format!("provided result #{k} (clamped {c}) not kept: out {res:?} (unprovided exists: {any_unprovided})"),
                             ));
+                        }
+                    }
+                }
+            }
+            // osu! slider results ("keeps every provided hit result that fits"): which of them exist depends on the origin
+            if let DifficultyAttributes::Osu(a) = attrs {
+                let lazer = i.lazer.unwrap_or(true);
+                // (provided, maximum for this origin, value in the generated state, name); stable scores have none of them
+                let rows: Vec<(Option<u32>, u32, u32, &str)> = match (lazer, cl_effective(mode, i)) {
+                    (false, _) => vec![],
+                    (true, false) => vec![
+                        (i.ticks[0], a.n_large_ticks, out.osu_large_tick_hits, "large_tick_hits"),
+                        (i.ticks[2], a.n_sliders, out.slider_end_hits, "slider_end_hits"),
+                    ],
+                    (true, true) => vec![
+                        (i.ticks[0], a.n_sliders + a.n_large_ticks, out.osu_large_tick_hits, "large_tick_hits"),
+                        (i.ticks[1], a.n_sliders, out.osu_small_tick_hits, "small_tick_hits"),
+                    ],
+                };
+                for (provided, max, got, name) in rows {
+                    if let Some(v) = provided {
+                        if v <= max && got != v {
+                            return Some(("S3-ticks-kept".into(), format!("provided {name} = {v} fits (maximum {max}) but the state has {got}")));
                         }
                     }
                 }
@@ -620,6 +659,7 @@ fn exhaustive_case(ctx: &mut Ctx, mode: GameMode, attrs: &DifficultyAttributes) 
                                     cl,
                                     cl_setting: None,
                                     lazer_via_setter: count % 2 == 1,
+                                    ticks: [None; 3],
                                     passed: p,
                                 };
                                 evaluate(ctx, mode, attrs, &i);
